@@ -27,7 +27,7 @@ fn doubles_default(tier: &str) -> u64 {
     if tier == "thorough" {
         2_000_000
     } else {
-        150_000
+        400_000
     }
 }
 
@@ -85,9 +85,26 @@ pub fn cmd_worker(args: &Args) -> i32 {
     while idx < limit {
         let _ = status.write_at(format!("{:>20}\n", idx).as_bytes(), 0);
         let c = sp.case(idx);
+        let mut hash_seed_override: Option<u64> = None;
         let bytes = sp.bytes_of(&c);
         let changed = bytes != sp.bases[c.base].bytes || c.faults.iter().any(|f| matches!(f, Fault::Io { .. }));
-        let (v, peak) = exec_case(&file, &dir, &bytes, &c, budget_for(bytes.len()));
+        let (mut v, mut peak) = exec_case(&file, &dir, &bytes, &c, budget_for(bytes.len()));
+        // two or more faults in the header: which bad entry is met first depends on the iteration order of
+        // the header's hash maps, so explore a few more hash seeds and keep the worst outcome
+        let header_faults = c.faults.iter().filter(|f| matches!(f, Fault::Splice { start, .. } if *start < sp.bases[c.base].map.data_start)).count();
+        if header_faults >= 2 && !matches!(v, Verdict::Panic(_)) {
+            for k in 1..4u64 {
+                let mut c2 = c.clone();
+                c2.hash_seed = c.hash_seed.wrapping_add(k.wrapping_mul(0x9E37_79B9_7F4A_7C15));
+                let (v2, p2) = exec_case(&file, &dir, &bytes, &c2, budget_for(bytes.len()));
+                peak = peak.max(p2);
+                if matches!(v2, Verdict::Panic(_)) {
+                    v = v2;
+                    hash_seed_override = Some(c2.hash_seed);
+                    break;
+                }
+            }
+        }
         let (vs, class) = match &v {
             Verdict::Ok => ("ok", String::new()),
             Verdict::Err(k) => ("err", k.clone()),
@@ -95,7 +112,7 @@ pub fn cmd_worker(args: &Args) -> i32 {
         };
         let text: String = c.faults.iter().map(|f| f.to_text()).collect::<Vec<_>>().join(";");
         let h = hash_bytes(format!("{}|{}", c.base, text).as_bytes());
-        let _ = writeln!(out, "{}\t{}\t{}\t{}\t{}\t{}\t{:x}\t{}", idx, c.base, c.kind(), vs, class, peak, h, changed as u8);
+        let _ = writeln!(out, "{}\t{}\t{}\t{}\t{}\t{}\t{:x}\t{}\t{}", idx, c.base, c.kind(), vs, class, peak, h, changed as u8, hash_seed_override.map(|x| x.to_string()).unwrap_or_default());
         idx += of;
     }
     let _ = status.write_at(format!("{:>20}\n", "done").as_bytes(), 0);
@@ -408,6 +425,7 @@ pub fn cmd_w2(args: &Args) -> i32 {
     let mut errkinds: BTreeMap<String, u64> = BTreeMap::new();
     let mut distinct: BTreeSet<u64> = BTreeSet::new();
     let mut panics: BTreeMap<String, (u64, u64)> = BTreeMap::new(); // class -> (lowest idx, count)
+    let mut seed_override: BTreeMap<u64, u64> = BTreeMap::new();
     let mut maxpeak = 0u64;
     let mut singles_done = 0u64;
     for k in 0..nworkers {
@@ -426,6 +444,11 @@ pub fn cmd_w2(args: &Args) -> i32 {
             *table.entry(kind).or_default().entry(f[3].to_string()).or_insert(0) += 1;
             if f[3] == "err" {
                 *errkinds.entry(f[4].to_string()).or_insert(0) += 1;
+            }
+            if f.len() >= 9 && !f[8].is_empty() {
+                if let Ok(h) = f[8].parse::<u64>() {
+                    seed_override.insert(idx, h);
+                }
             }
             if f[3] == "panic" {
                 let e = panics.entry(f[4].to_string()).or_insert((idx, 0));
@@ -519,7 +542,10 @@ pub fn cmd_w2(args: &Args) -> i32 {
     candidates.sort();
     let mut reported_sigs: BTreeSet<String> = BTreeSet::new();
     for (idx, expect) in candidates {
-        let c = sp.case(idx);
+        let mut c = sp.case(idx);
+        if let Some(h) = seed_override.get(&idx) {
+            c.hash_seed = *h;
+        }
         // minimise: drop faults one at a time while the same signature persists
         let mut cur = c.clone();
         let write = |c: &Case, name: &str, sig: &str, detail: &str| -> Result<PathBuf, String> {
